@@ -90,6 +90,14 @@ def run(model, tier="quick"):
                   FX, opaque=OPQ, keep_raise_effects=False)
     loop_shape(model, res)
     res.floor("functions_reachable_from_liquidation", effect_rule(model, res), 5)
+    # every Aave figure is read through the memo caches: their typestate (no stale read, no stale exit) is a premise here
+    from ..rules.cache import run_cache
+    if "R-CACHE" not in res.rules:
+        res.rules.append("R-CACHE")
+    res.units["aave_cache_writer_methods"] = run_cache(model, res, "AaveV3Market", res.prop)[0]
+    from . import aave_refs as _R
+    from ..rules.formula import formula_check as _fc
+    _fc(res, model, "AaveV3CoreLib.health_factor", _R.REF_HF, "HF = sum(collateral_i * LT_i) / sum(debt): each collateral with ITS OWN threshold")
     from ..rules.fresh import fresh_rule
     if "R-FRESH" not in res.rules:
         res.rules.append("R-FRESH")
